@@ -349,6 +349,9 @@ def int_instr(ctx, rng, a: int, b: int) -> None:
     # sometimes feed a non-minimal (sign-extended) operand
     if rng.random() < 0.2:
         ea = (b'\xff' if a < 0 else b'\x00') * rng.randrange(1, 4) + ea
+    if len(ea) > 65535 or len(eb) > 65535:
+        ctx.count('skipped.operand_over_push2_size')
+        return
     base = _push(ea) + _push(eb)
     nt = is_nt_int(a) or is_nt_int(b)
 
@@ -526,7 +529,12 @@ def run_shard(spec, ctx):
     edge = [0, 1, -1, 127, 128, -128, -129, 255, 256, 32767, 32768, -32768,
             -32769, (1 << 53) + 1, -(1 << 63), (1 << 63), (1 << 64) - 1,
             (1 << 255) - 19, -(1 << 255), (1 << 2040) - 1, -(1 << 2047),
-            (1 << 2047), (1 << 4096) + 3]
+            (1 << 2047), (1 << 4096) + 3,
+            # past CPython's 4300-decimal-digit int <-> str limit (2^14284)
+            # and on to the largest item run_prog admits
+            (1 << 14283) + 7, (1 << 14285) - 3, -(1 << 14290) + 1,
+            (1 << 16384), -(1 << 16383) - 1, (1 << 20_001) + 1,
+            (1 << 100_003) + 11, -(1 << 400_000) + 5, (1 << 520_000) - 1]
     pool = edge + big
     ninstr = len(pool)
     for j in range(ninstr):
